@@ -602,4 +602,168 @@ theorem parseMantissa_eq (c : FC) (hmax : 2 ≤ c.maxDigits) (integer fraction :
   · rw [if_pos hlt, if_pos (by omega)]
   · rw [if_neg hlt, if_neg (by omega), List.take_of_length_le (by omega)]
 
+/-! ## the digit-count argument behind `MAX_DIGITS` -/
+
+/-- no midpoint `(2m+1)·2^k / 2^(q+1)` lies strictly between two consecutive `K`-digit decimals `D/10^τ`,
+    `(D+1)/10^τ`, because such a midpoint has at most `K` significant digits: `2^(mb+2)·5^(q+1) < 10^K` -/
+theorem no_critical_inside (mb q K m k D τ : Nat) (hm : m < 2 ^ (mb + 1)) (hD : 10 ^ (K - 1) ≤ D) (hK : 1 ≤ K)
+    (hdig : 2 ^ (mb + 2) * 5 ^ (q + 1) < 10 ^ K)
+    (h1 : D * 2 ^ (q + 1) < (2 * m + 1) * 2 ^ k * 10 ^ τ) (h2 : (2 * m + 1) * 2 ^ k * 10 ^ τ < (D + 1) * 2 ^ (q + 1)) :
+    False := by
+  have h10 : ∀ n, (10 : Nat) ^ n = 5 ^ n * 2 ^ n := fun n => by
+    have : (10 : Nat) = 5 * 2 := rfl
+    rw [this, Nat.mul_pow]
+  by_cases hk : q + 1 ≤ k
+  · -- an integer strictly between D and D + 1
+    obtain ⟨j, hj⟩ : ∃ j, k = (q + 1) + j := ⟨k - (q + 1), by omega⟩
+    have e : (2 * m + 1) * 2 ^ k * 10 ^ τ = (2 * m + 1) * 2 ^ j * 10 ^ τ * 2 ^ (q + 1) := by
+      rw [hj, Nat.pow_add]; ring
+    rw [e, cmp_scale (pow_pos' _)] at h1 h2
+    omega
+  · obtain ⟨g, hg⟩ : ∃ g, q + 1 = k + g ∧ 1 ≤ g := ⟨q + 1 - k, by omega, by omega⟩
+    have e1 : D * 2 ^ (q + 1) = D * 2 ^ g * 2 ^ k := by rw [hg.1, Nat.pow_add]; ring
+    have e2 : (D + 1) * 2 ^ (q + 1) = (D + 1) * 2 ^ g * 2 ^ k := by rw [hg.1, Nat.pow_add]; ring
+    have e3 : (2 * m + 1) * 2 ^ k * 10 ^ τ = (2 * m + 1) * 10 ^ τ * 2 ^ k := by ring
+    rw [e1, e3, cmp_scale (pow_pos' _)] at h1
+    rw [e2, e3, cmp_scale (pow_pos' _)] at h2
+    by_cases hgt : g ≤ τ
+    · obtain ⟨j, hj⟩ : ∃ j, τ = g + j := ⟨τ - g, by omega⟩
+      have e : (2 * m + 1) * 10 ^ τ = (2 * m + 1) * 5 ^ τ * 2 ^ j * 2 ^ g := by
+        rw [h10 τ]
+        have : (2 : Nat) ^ τ = 2 ^ g * 2 ^ j := by rw [hj, Nat.pow_add]
+        rw [this]; ring
+      rw [e, cmp_scale (pow_pos' _)] at h1 h2
+      omega
+    · obtain ⟨j, hj⟩ : ∃ j, g = τ + j ∧ 1 ≤ j := ⟨g - τ, by omega, by omega⟩
+      -- D·2^j < (2m+1)·5^τ
+      have e4 : D * 2 ^ g = D * 2 ^ j * 2 ^ τ := by rw [hj.1, Nat.pow_add]; ring
+      have e5 : (2 * m + 1) * 10 ^ τ = (2 * m + 1) * 5 ^ τ * 2 ^ τ := by rw [h10 τ]; ring
+      rw [e4, e5, cmp_scale (pow_pos' _)] at h1
+      -- chain of inequalities
+      have hKK : 10 ^ K = 10 ^ (K - 1) * 10 := by
+        have : K = (K - 1) + 1 := by omega
+        conv_lhs => rw [this, Nat.pow_succ]
+      have s1 : 10 ^ (K - 1) * 2 ^ j ≤ D * 2 ^ j := Nat.mul_le_mul_right _ hD
+      have s2 : (2 * m + 1) * 5 ^ τ < 2 ^ (mb + 2) * 5 ^ τ := by
+        apply Nat.mul_lt_mul_of_pos_right _ (Nat.pos_of_ne_zero (by simp))
+        rw [Nat.pow_succ]; omega
+      have s3 : 10 ^ (K - 1) * 2 ^ j < 2 ^ (mb + 2) * 5 ^ τ := by omega
+      -- multiply by 10 · 5^j: 10^K · 10^j·... compare with 2^(mb+2) 5^(q+1)
+      have hgq : g ≤ q + 1 := by omega
+      have s4 : 10 ^ K * 2 ^ j * 5 ^ j < 2 ^ (mb + 2) * 5 ^ τ * 10 * 5 ^ j := by
+        have := Nat.mul_lt_mul_of_pos_right s3 (show 0 < 10 * 5 ^ j from Nat.mul_pos (by decide) (Nat.pos_of_ne_zero (by simp)))
+        calc 10 ^ K * 2 ^ j * 5 ^ j = 10 ^ (K - 1) * 2 ^ j * (10 * 5 ^ j) := by rw [hKK]; ring
+          _ < 2 ^ (mb + 2) * 5 ^ τ * (10 * 5 ^ j) := this
+          _ = 2 ^ (mb + 2) * 5 ^ τ * 10 * 5 ^ j := by ring
+      -- 2^j·5^j = 10^j ≥ 10 (j ≥ 1), so 10^K · 10 ≤ 10^K · 10^j
+      have hj10 : 10 ≤ 2 ^ j * 5 ^ j := by
+        rw [← Nat.mul_pow]
+        calc 10 = (2 * 5) ^ 1 := by norm_num
+          _ ≤ (2 * 5) ^ j := Nat.pow_le_pow_right (by decide) hj.2
+      have s5 : 10 ^ K * 10 ≤ 10 ^ K * 2 ^ j * 5 ^ j := by
+        rw [Nat.mul_assoc]; exact Nat.mul_le_mul_left _ hj10
+      have s6 : 10 ^ K * 10 < 2 ^ (mb + 2) * 5 ^ (τ + j) * 10 := by
+        calc 10 ^ K * 10 ≤ 10 ^ K * 2 ^ j * 5 ^ j := s5
+          _ < 2 ^ (mb + 2) * 5 ^ τ * 10 * 5 ^ j := s4
+          _ = 2 ^ (mb + 2) * 5 ^ (τ + j) * 10 := by rw [Nat.pow_add]; ring
+      have s7 : 10 ^ K < 2 ^ (mb + 2) * 5 ^ (τ + j) := Nat.lt_of_mul_lt_mul_right s6
+      have s8 : 2 ^ (mb + 2) * 5 ^ (τ + j) ≤ 2 ^ (mb + 2) * 5 ^ (q + 1) :=
+        Nat.mul_le_mul_left _ (Nat.pow_le_pow_right (by decide) (by omega))
+      omega
+
+theorem val_lt (sig : Nat) (ds : Bytes) (hd : IsDigits ds) : val sig ds < (sig + 1) * 10 ^ ds.length := by
+  induction ds generalizing sig with
+  | nil => simp [val]
+  | cons c cs ih =>
+    have hc := dig_lt_10 c (hd c (List.mem_cons_self ..))
+    have hcs : IsDigits cs := fun x hx => hd x (List.mem_cons_of_mem _ hx)
+    rw [val_cons, List.length_cons, Nat.pow_succ]
+    have h1 := ih (sig * 10 + dig c) hcs
+    have h2 : (sig * 10 + dig c + 1) * 10 ^ cs.length ≤ (sig * 10 + 10) * 10 ^ cs.length :=
+      Nat.mul_le_mul_right _ (by omega)
+    have e : (sig + 1) * (10 ^ cs.length * 10) = (sig * 10 + 10) * 10 ^ cs.length := by ring
+    omega
+
+theorem natOfDigits_lt (ds : Bytes) (hd : IsDigits ds) : natOfDigits ds < 10 ^ ds.length := by
+  have := val_lt 0 ds hd
+  rw [natOfDigits_eq_val]; omega
+
+theorem natOfDigits_ge (d : UInt8) (r : Bytes) (hd : IsDigits (d :: r)) (hnz : d ≠ 0x30) :
+    10 ^ r.length ≤ natOfDigits (d :: r) := by
+  have h1 := hd d (List.mem_cons_self ..)
+  have hdig : 1 ≤ dig d := by
+    have h48 := UInt8.le_iff_toNat_le.1 h1.1
+    change 48 ≤ d.toNat at h48
+    have : d.toNat ≠ 48 := fun hh => hnz (UInt8.toNat_inj.1 (by simpa using hh))
+    simp only [dig]; omega
+  rw [natOfDigits_eq_val, val_cons, val_eq]
+  have : 1 * 10 ^ r.length ≤ (0 * 10 + dig d) * 10 ^ r.length := Nat.mul_le_mul_right _ (by omega)
+  omega
+
+/-- the midpoint above any pattern is an odd multiple of a power of two with a short odd part -/
+theorem mid_form (F : Fmt) (u : Nat) :
+    ∃ m k, magOfBits F u + magOfBits F (u + 1) = (2 * m + 1) * 2 ^ k ∧ m < 2 ^ (F.mbits + 1) := by
+  have hP := pow_pos' F.mbits
+  have hM := Nat.mod_lt u hP
+  rw [magOfBits_succ]
+  unfold magOfBits
+  by_cases hE : u / 2 ^ F.mbits = 0
+  · refine ⟨u % 2 ^ F.mbits, 0, ?_, by rw [Nat.pow_succ]; omega⟩
+    simp [hE]; ring
+  · refine ⟨2 ^ F.mbits + u % 2 ^ F.mbits, u / 2 ^ F.mbits - 1, ?_, by rw [Nat.pow_succ]; omega⟩
+    simp only [hE, if_false]; ring
+
+/-- values at or beyond `2^(bias+1)` round to a non-finite pattern -/
+theorem roundMag_overflow_of_ge {c : FC} {F : Fmt} (h : FCok c F) (a bb : Nat) (hbb : 0 < bb)
+    (hge : 2 ^ (F.mbits + 1) * 2 ^ (2 ^ F.ebits - 3) * bb ≤ a) : F.infBits ≤ roundMag F a bb := by
+  have hE4 : 4 ≤ 2 ^ F.ebits := by
+    have : 2 ^ 2 ≤ 2 ^ F.ebits := Nat.pow_le_pow_right (by decide) h.eb
+    omega
+  rw [roundMag_overflow_iff F (2 ^ F.ebits - 3) a bb hbb (by omega) (by omega)]
+  have hP := pow_pos' F.mbits
+  have : (4 * 2 ^ F.mbits - 1) * 2 ^ (2 ^ F.ebits - 3) * bb ≤ 4 * 2 ^ F.mbits * 2 ^ (2 ^ F.ebits - 3) * bb :=
+    Nat.mul_le_mul_right _ (Nat.mul_le_mul_right _ (by omega))
+  have e : 4 * 2 ^ F.mbits * 2 ^ (2 ^ F.ebits - 3) * bb = 2 * (2 ^ (F.mbits + 1) * 2 ^ (2 ^ F.ebits - 3) * bb) := by
+    rw [Nat.pow_succ]; ring
+  omega
+
+/-- **truncation.** With respect to any midpoint between adjacent patterns, the full digit string (`D`, then a
+    non-zero tail of `j` digits) and the truncated one (`D`, then the sticky digit `1`) compare alike. -/
+theorem cmp_transfer {c : FC} {F : Fmt} (h : FCok c F) (u D τ j tail : Nat)
+    (hD : 10 ^ (c.maxDigits - 1 - 1) ≤ D) (ht1 : 0 < tail) (ht2 : tail < 10 ^ j) :
+    ((magOfBits F u + magOfBits F (u + 1)) * 10 ^ (τ + j) < 2 * ((D * 10 ^ j + tail) * 2 ^ F.qexp) ↔
+      (magOfBits F u + magOfBits F (u + 1)) * 10 ^ (τ + 1) < 2 * ((10 * D + 1) * 2 ^ F.qexp)) ∧
+    (2 * ((D * 10 ^ j + tail) * 2 ^ F.qexp) < (magOfBits F u + magOfBits F (u + 1)) * 10 ^ (τ + j) ↔
+      2 * ((10 * D + 1) * 2 ^ F.qexp) < (magOfBits F u + magOfBits F (u + 1)) * 10 ^ (τ + 1)) := by
+  obtain ⟨m, k, hC, hm⟩ := mid_form F u
+  generalize magOfBits F u + magOfBits F (u + 1) = C at *
+  have hY : 0 < 2 ^ (F.qexp + 1) := pow_pos' _
+  have hJ : 0 < 10 ^ j := Nat.pos_of_ne_zero (by simp)
+  -- common shapes
+  have eL1 : C * 10 ^ (τ + j) = C * 10 ^ τ * 10 ^ j := by rw [Nat.pow_add]; ring
+  have eL2 : C * 10 ^ (τ + 1) = C * 10 ^ τ * 10 := by rw [Nat.pow_succ]; ring
+  have eR1 : 2 * ((D * 10 ^ j + tail) * 2 ^ F.qexp) = D * 2 ^ (F.qexp + 1) * 10 ^ j + tail * 2 ^ (F.qexp + 1) := by
+    rw [Nat.pow_succ]; ring
+  have eR2 : 2 * ((10 * D + 1) * 2 ^ F.qexp) = D * 2 ^ (F.qexp + 1) * 10 + 2 ^ (F.qexp + 1) := by
+    rw [Nat.pow_succ]; ring
+  have eR1' : (D + 1) * 2 ^ (F.qexp + 1) * 10 ^ j = D * 2 ^ (F.qexp + 1) * 10 ^ j + 10 ^ j * 2 ^ (F.qexp + 1) := by ring
+  have eR2' : (D + 1) * 2 ^ (F.qexp + 1) * 10 = D * 2 ^ (F.qexp + 1) * 10 + 10 * 2 ^ (F.qexp + 1) := by ring
+  have htail : tail * 2 ^ (F.qexp + 1) < 10 ^ j * 2 ^ (F.qexp + 1) := Nat.mul_lt_mul_of_pos_right ht2 hY
+  have htail0 : 0 < tail * 2 ^ (F.qexp + 1) := Nat.mul_pos ht1 hY
+  rw [eL1, eL2, eR1, eR2]
+  by_cases hA : C * 10 ^ τ ≤ D * 2 ^ (F.qexp + 1)
+  · have a1 : C * 10 ^ τ * 10 ^ j ≤ D * 2 ^ (F.qexp + 1) * 10 ^ j := Nat.mul_le_mul_right _ hA
+    have a2 : C * 10 ^ τ * 10 ≤ D * 2 ^ (F.qexp + 1) * 10 := Nat.mul_le_mul_right _ hA
+    constructor <;> constructor <;> intro _ <;> omega
+  · have hB : (D + 1) * 2 ^ (F.qexp + 1) ≤ C * 10 ^ τ := by
+      by_contra hc
+      apply no_critical_inside F.mbits F.qexp (c.maxDigits - 1) m k D τ hm hD (by have := h.maxd; omega) h.digits_ok
+      · rw [← hC]; omega
+      · rw [← hC]; omega
+    have b1 : (D + 1) * 2 ^ (F.qexp + 1) * 10 ^ j ≤ C * 10 ^ τ * 10 ^ j := Nat.mul_le_mul_right _ hB
+    have b2 : (D + 1) * 2 ^ (F.qexp + 1) * 10 ≤ C * 10 ^ τ * 10 := Nat.mul_le_mul_right _ hB
+    rw [eR1'] at b1
+    rw [eR2'] at b2
+    constructor <;> constructor <;> intro _ <;> omega
+
 end SJ.Proofs.LexBh
